@@ -983,6 +983,8 @@ def get_attr(self, st, base, attr, node, default=KeyError):
         return self.raise_exc(st, "AttributeError", node, "missing-attr",
                               "%s object has no attribute %s" % (o.clsname(), attr))
     if base is None:
+        if attr == "__class__":
+            return [(st, "val", ClassVal("NoneType"))]
         if default is not KeyError:
             return [(st, "val", default)]
         return self.raise_exc(st, "AttributeError", node, "none-attr", "None.%s" % attr)
@@ -1014,6 +1016,8 @@ def get_attr(self, st, base, attr, node, default=KeyError):
         raise U_("enum attribute %s.%s" % (base, attr))
     if isinstance(base, ClassVal):
         ci = base.cls
+        if not isinstance(ci, ClassInfo) and attr in ("__name__", "__qualname__"):
+            return [(st, "val", base.name())]
         if isinstance(ci, ClassInfo):
             if ci.is_enum and attr in ci.class_consts:
                 attr = _enum_canonical(ci, attr)
